@@ -186,3 +186,20 @@ def write_project(root: Path, files, config_text: str | None) -> None:
 
 
 DEFAULT_CFG = "dry:\n  enabled: true\n  min_duplicate_lines: 4\nstringly-typed:\n  enabled: true\n"
+
+
+# Sections with a sub-section for one language only: files of the other languages must keep the section's own values whatever was
+# linted before them (a configuration object that is updated in place while a run walks through files of several languages shows
+# up as an order dependence)
+LANG_CFGS = [
+    "",
+    "nesting:\n  max_nesting_depth: 2\n  python:\n    max_nesting_depth: 6\n",
+    "nesting:\n  max_nesting_depth: 6\n  typescript:\n    max_nesting_depth: 2\n  rust:\n    max_nesting_depth: 3\n",
+    "srp:\n  max_methods: 2\n  typescript:\n    max_methods: 9\n",
+    "magic-numbers:\n  allowed_numbers: [0, 1]\n  python:\n    allowed_numbers: [0, 1, 2, 100, 101, 102, 103]\n    max_small_integer: 3\n",
+    "nesting:\n  max_nesting_depth: 3\n  rust:\n    max_nesting_depth: 7\nmagic-numbers:\n  max_small_integer: 2\n  typescript:\n    allowed_numbers: []\n",
+]
+
+
+def lang_cfg(rng) -> str:
+    return rng.choice(LANG_CFGS)
